@@ -185,8 +185,9 @@ class Reporting(Contract):
             ok_csv = isinstance(data, dict) and sorted(data.keys()) == sorted(cols.keys())
             if ok_csv:
                 for c, attr in cols.items():
-                    same.append(V(data[c])[i] == getattr(r, attr).kcals[i])
-        out["saved_table_has_the_ten_series_of_the_result"] = And(V(ok_csv), *same)
+                    # (the very series object of the result needs no solver; anything else is compared month by month)
+                    same.append(V(True) if data[c] is unwrap(getattr(r, attr).kcals) else V(data[c])[i] == getattr(r, attr).kcals[i])
+        out["saved_table_has_the_ten_series_of_the_result"] = [V(ok_csv)] + same
         out["saved_under_the_run_title"] = V(ok_csv and "run title_ykcals.csv" in str(getattr(written[0][0], "s", written[0][0])))
         return out
 
